@@ -228,6 +228,32 @@ def _err_kind(e):
     return "raise other: %s" % msg[:80]
 
 
+class _Hang(Exception):
+    pass
+
+
+def guarded(fn, seconds=90, tries=3):
+    """run `fn()`; `multiprocess.Pool` teardown inside determine_life can (rarely) dead-lock when a
+    worker is killed from outside — do not hang the check: time out, retry, then give up as an
+    infrastructure problem"""
+    import signal
+
+    def on_alarm(signum, frame):
+        raise _Hang()
+
+    for _ in range(tries):
+        old = signal.signal(signal.SIGALRM, on_alarm)
+        signal.alarm(seconds)
+        try:
+            return fn()
+        except _Hang:
+            continue
+        finally:
+            signal.alarm(0)
+            signal.signal(signal.SIGALRM, old)
+    raise common.Infra("determine_life did not return within %d s (%d tries)" % (seconds, tries))
+
+
 def real_run(case, with_life=True, nthreads=1):
     """what the real code computes; dict(status, life, tubes=[dict(inds, Dc, Df, life)])"""
     mat = real_material(case["material"])
@@ -246,7 +272,7 @@ def real_run(case, with_life=True, nthreads=1):
         out["tubes"].append(rec)
     if with_life:
         try:
-            out["life"] = canon_life(dm.determine_life(rcv, mat, nthreads=nthreads))
+            out["life"] = canon_life(guarded(lambda: dm.determine_life(rcv, mat, nthreads=nthreads)))
         except ValueError as e:
             out["status"] = _err_kind(e)
     return out
@@ -256,8 +282,8 @@ def real_life(case, nthreads=1):
     """only determine_life (the observable of the property); ('ok', life) or (error kind, None)"""
     mat = real_material(case["material"])
     try:
-        return "ok", canon_life(make_calculator(case["mode"]).determine_life(make_receiver(case), mat,
-                                                                             nthreads=nthreads))
+        dm, rcv = make_calculator(case["mode"]), make_receiver(case)
+        return "ok", canon_life(guarded(lambda: dm.determine_life(rcv, mat, nthreads=nthreads)))
     except ValueError as e:
         return _err_kind(e), None
 
@@ -324,7 +350,7 @@ def lives_match(a, b, mode, rel=1e-9):
         return "same" if a == b else "diff"
     if mode == "lump":
         return "same" if common.close(a, b, rel=rel, abs_=0.0) else "diff"
-    if abs(a - b) <= 1e-6 * max(1.0, abs(b)) * 1e-3 + 1e-6:
+    if abs(a - b) <= 1e-6:
         return "same"
     if abs(a - b) <= 1.0 + 1e-6:
         return "jump"
